@@ -388,6 +388,42 @@ def cmd_selfcheck_driver(pids):
     return 0 if bad == 0 else 1
 
 
+def cmd_kani_run(names, trace=False):
+    """Development loop: build, run the named harnesses (substring match), print every check."""
+    b = kanitrack.build()
+    if not b["ok"]:
+        errs = [l for l in b["log"].splitlines()]
+        print("\n".join(errs[-120:]))
+        print("BUILD FAILED")
+        return 2
+    print("build %.0fs rebuilt=%s harnesses=%d" % (b["seconds"], b.get("rebuilt"), len(b["harnesses"])))
+    sel = [h for k, h in sorted(b["harnesses"].items()) if not names or any(n in k for n in names)]
+    tmo = int(os.environ.get("VERIF_HARNESS_TIMEOUT", "900"))
+    workdir = os.path.join(CACHE, "run", "dev-%d" % os.getpid())
+    if trace:
+        res = [kanitrack.run_harness(h, workdir, tmo, trace=True) for h in sel]
+    else:
+        res = kanitrack.run_many(sel, workdir, tmo)
+    rc = 0
+    for r in res:
+        print("=== %s: %s (%.1fs, unwind=%s) %s" % (r["harness"], r["status"].upper(), r["seconds"], r.get("unwind"), r.get("reason", "")))
+        n = 0
+        for c in r["checks"]:
+            interesting = c["verdict"] not in ("discharged", "satisfied") or re.match(r"^C\d\d\.", c["name"]) or c["cls"] == "cover"
+            if c["verdict"] in ("discharged",) and not re.match(r"^C\d\d\.", c["name"]):
+                n += 1
+            if interesting:
+                print("   %-14s %s  [%s:%s %s]" % (c["verdict"], c["name"], os.path.relpath(c["file"], "/") if c["file"] else "", c["line"], c["cls"]))
+                if c.get("locals"):
+                    print("        counterexample locals:", json.dumps(c["locals"]))
+                if c.get("concrete_values") is not None and trace:
+                    print("        any() values:", [v["interp"] for v in c["concrete_values"]])
+        print("   (+%d automatic checks discharged)" % n)
+        if r["status"] != "ok":
+            rc = 1
+    return rc
+
+
 def main(argv):
     if len(argv) < 2:
         print(__doc__)
@@ -404,6 +440,9 @@ def main(argv):
             tier = argv[argv.index("--tier") + 1]
         seed = int(os.environ.get("VERIF_SEED", "0") or 0)
         return cmd_check(pid, tier, seed)
+    if c == "kani-run":
+        a = [x for x in argv[2:] if x != "--trace"]
+        return cmd_kani_run(a, trace="--trace" in argv)
     if c == "replay":
         return cmd_replay(argv[2])
     if c == "selfcheck-driver":
